@@ -305,6 +305,9 @@ def run(rep):
         okn = nn is not None and nn[0] == 'call' and nn[1].startswith('Literal::') and nn[2][0][0] == 'mcall' and nn[2][0][2] == 'len' and same_star(nn[2][0][1], l)
         rep.check(okn, 'C07.D.buffer-count', 'buffer-count', w2, f'VertexEntry<N>: N is {E.show(nn, maxdepth=5) if nn else None}; expected the length of the same argument list', ok_detail='N = number of struct arguments')
     rep.analysed = {'impl_function': q, 'helper_functions': [x[0] for x in eh]}
+    # the section reaches the assembled output unconditionally (shared rule, lib/sections.py)
+    from sections import check_wiring
+    check_wiring(rep, 'C07.section-wiring', ['VERTEX_ATTRIBUTES', 'VertexEntry <'], 'vertex-sections')
 
 
 def strip_cast(t):
